@@ -70,7 +70,9 @@ def spaces(tier):
     tfcs = [(None, False, None, None), ("T2", False, None, None), ("T2", True, None, None), (None, False, None, "HA"), ("T2", True, None, "HA")]
     if tier == "quick":
         return dict(abs_sigma="UDFZ", abs_n=4, rel_sigma="udnfPM", rel_n=4, st_sigma="FZUD", st_n=3, st_r=(1, 16), tfcs=tfcs, horizon=4.0)
-    return dict(abs_sigma="UDFZVJ", abs_n=5, rel_sigma="udnfPM", rel_n=6, st_sigma="FZUDJ", st_n=3, st_r=(1, 16, 40), tfcs=tfcs, horizon=10.0)
+    # one step deeper than quick in every main family (a pass of about three times the quick one on 16 cores; the bounds that were
+    # tried before - abs ^5 over six letters, relative steps up to 6, runs of 40 - were never run to completion on this machine)
+    return dict(abs_sigma="UDFZ", abs_n=5, rel_sigma="udnfPM", rel_n=5, st_sigma="FZUD", st_n=3, st_r=(1, 16), tfcs=tfcs, horizon=10.0, fed_quick=True)
 
 
 def streams(sp, tf, first):
@@ -457,7 +459,7 @@ def run_fed(rep, rlabel, slabel, sfield, tfc, fam, word, raw, horizon, prop="C09
 
 def explore_fed(item):
     prop, tier, rlabel, slabel, sfield, tfc, first = item
-    sp = spaces(tier)
+    sp = spaces("quick")  # the fed-reader families use the quick bounds in both tiers
     rep = Report()
     for (fam, word), raw in streams(sp, tfc[0], first):
         run_fed(rep, rlabel, slabel, sfield, tfc, fam, word, raw, sp["horizon"], prop)
